@@ -233,7 +233,7 @@ func runSecure(o opts) error {
 			SkipHostEnv:     true,
 		})
 		_, serr := cl.Start()
-		cl.Kill()
+		boundedKill(cl)
 		class := 0
 		switch {
 		case serr == nil:
